@@ -66,6 +66,18 @@ func (p *ProjectionPlan) Batch(ctx *ExecuteCtx) ([][]Column, error) {
 	return p.processProjectionBatch(kvps, ctx)
 }
 
+// ownsName tells whether field i is the one its name stands for: the cache
+// is keyed by name, and a name used for several fields (select key as a,
+// value as a) refers to the first of them
+func (p *ProjectionPlan) ownsName(i int) bool {
+	for j := 0; j < i; j++ {
+		if p.FieldNames[j] == p.FieldNames[i] {
+			return false
+		}
+	}
+	return true
+}
+
 func (p *ProjectionPlan) processProjectionBatch(chunk []KVPair, ctx *ExecuteCtx) ([][]Column, error) {
 	var (
 		nFields = len(p.Fields)
@@ -76,7 +88,7 @@ func (p *ProjectionPlan) processProjectionBatch(chunk []KVPair, ctx *ExecuteCtx)
 	)
 	for i := 0; i < nFields; i++ {
 		have = false
-		if ctx != nil {
+		if ctx != nil && p.ownsName(i) {
 			fname := p.FieldNames[i]
 			cols[i], have = ctx.GetChunkFieldFinalResult(fname)
 		}
@@ -108,7 +120,7 @@ func (p *ProjectionPlan) processProjection(kvp KVPair, ctx *ExecuteCtx) ([]Colum
 	)
 	for i := 0; i < nFields; i++ {
 		have := false
-		if ctx != nil {
+		if ctx != nil && p.ownsName(i) {
 			fname := p.FieldNames[i]
 			result, have = ctx.GetFieldResult(fname)
 		}
